@@ -9,6 +9,7 @@ TRUSTED_BASE = [
 ]
 
 KANI_UNITS = {
+    "macros": {"name": "macros", "file": "src/parser/macros.rs", "harness": "macros.harness.rs", "modpath": "parser::macros"},
     "values": {"name": "values", "file": "src/values.rs", "harness": "values.harness.rs", "modpath": "values"},
 }
 
@@ -30,6 +31,18 @@ _TAIL_UNVERIFIED = [
 ]
 
 PROPS = {
+    "C04": {
+        "verus": ["macro_transform"], "kani": ["macros"], "native": [],
+        "level": "proof",
+        "explanation": "UserDefinedTransformer::transform is proved, for rule sets and uses of any size, to expand with the FIRST rule "
+                       "(in textual order) whose pattern matches and to return the MacroMissMatch syntax error when none matches "
+                       "(matcher and template filler as uninterpreted relations); SyntaxPattern::match_datum is proved on scalar "
+                       "patterns: literal data match only equal data, _ matches anything, list/vector patterns never match a scalar.",
+        "unverified": ["match_datum on identifiers (HashSet<String>::contains / HashMap::insert: SipHash under CBMC), sub-lists, vectors and "
+                       "ellipsis (match_datum_stream); template filling (substitude*); String / Real literal data; rule construction "
+                       "(transform_transformer/transform_pattern/transform_template in parser.rs): a breakage confined to these is not detected"],
+        "assumptions": ["kani::stub: RandomState::new replaced by fixed keys (no hashing happens on the verified arms)"],
+    },
     "C02": {
         "verus": ["interp_tail"], "kani": [], "native": [],
         "level": "proof",
